@@ -168,9 +168,19 @@ theorem C20_reply_payload (p : Patch) (params : Params) (id : Option ReqId) :
        | .result v => .ok ⟨id.orElse fun _ => p.cfgId, .set v, .unset⟩
        | .error e => .ok ⟨id.orElse fun _ => p.cfgId, .unset, .set e⟩
        | .callback tag => .ok ⟨id, .set (callbackValue tag params), .unset⟩
+       | .callbackRaises => .raised (.other "CallbackError")
        | .nothing => .raised .assertion) := by
   unfold patchReply
   cases p.payload <;> rfl
+
+/-- **Every call is recorded, whatever becomes of its reply**: when the head patch of the queue cannot
+produce a reply (its callback raises, or neither result nor error is configured) the call is recorded
+under its endpoint and method all the same, and the queue has advanced as for an answered call. -/
+theorem C20_recorded_even_if_reply_fails (s : MockState) (ep : String) (req : Request) (p : Patch) (rest : Queue)
+    (h : alGet req.method ((alGet ep s.patches).getD []) = some (p :: rest)) :
+    (matchRequest s ep req).1.calls = recordCall ep req.method req.params s.calls
+    ∧ (matchRequest s ep req).2 = patchReply p req.params req.id := by
+  simp [matchRequest, h]
 
 /-- An endpoint without patches is passed through to the real transport or refused, as configured;
 nothing is recorded. -/
